@@ -147,6 +147,16 @@ class EnergyProxy:
         P.space().op(name, sym=True, pd=True)
         return w.apply(name)
 
+    def vec_hessian(self, x, w):          # v.H = H.v: the Hessian is symmetric
+        return self.hessian_vec(x, w)
+
+    def gradient_and_tangent(self, x):
+        # Objective.gradient_and_tangent linearises the gradient at (x, self.p) with the parameters installed AT CALL TIME; the
+        # returned map keeps applying that Hessian whatever is installed afterwards
+        name = 'H[%s|%s]' % (P._short(x.key()), _ptag(self.p))
+        P.space().op(name, sym=True, pd=True)
+        return P.AVec.atom('grad[%s|%s]' % (P._short(x.key()), _ptag(self.p))), (lambda w: w.apply(name))
+
     def apply_precond(self, w):
         P.space().op('Precond', sym=True, pd=True)
         return w.apply('Precond')
